@@ -36,6 +36,13 @@ def build(spec):
         return RExt(a[0], bytes.fromhex(a[1]))
     if k == 'E':
         return RExt(a[0], bytes([a[1]]) * a[2])
+    if k == 'X':
+        # something the codec must refuse: an out-of-range integer or an object of an unsupported type
+        if a == 'obj':
+            return object()
+        if a == 'set':
+            return {1, 2}
+        return int(a[4:])
     raise ValueError(spec)
 
 
